@@ -13,5 +13,5 @@ CONSTANTS
   Precedence = 2
   MaxBlock = 55
   Faults = {"none", "waiter", "submit"}
-INVARIANTS TypeOK SlotsInjective RelayBeforeTimeout NoSubmitBeforeSlot ObservedNeverSubmits GateBlocksSubmission SingleWinner MonitoringOnlyRelay RelaySlotBeforeTimeoutBlock
-PROPERTIES NoSubmitAfterObserve
+INVARIANTS TypeOK SlotsInjective RelayBeforeTimeout RequestIsSlot ObservedNeverSubmits GateBlocksSubmission SingleWinner MonitoringOnlyRelay RelaySlotBeforeTimeoutBlock
+PROPERTIES NoSubmitAfterObserve NoSubmitBeforeSlot
